@@ -55,6 +55,11 @@ def gen(prop, stream, tier, avoid):
     objs = []
     for _ in range(nobj):
         spec = shapes.gen_shape(rng, kind="surface", max_size=6, max_degree=3, dim=3)
+        if rng.chance(0.12):
+            # the same kind of surface in other units (a part of a few millimetres modelled in metres): exact power-of-two factor
+            f_ = rng.pick([2.0 ** -10, 2.0 ** -13, 2.0 ** 10])
+            spec["P"] = [[c * f_ for c in q] for q in spec["P"]]
+            spec["scale"] = f_
         if rng.chance(0.25) and "trims" not in avoid:
             spec["trim"] = _gen_trim(rng)
         elif rng.chance(0.15):
